@@ -118,20 +118,23 @@ def run(run, replay=None):
     run.notes['spellings'] = nsp
     run.sample({'codec': canon[len(canon) // 2], 'spellings': sorted(table[canon[len(canon) // 2]])})
     run.sample({'codec': 'utf-16', 'spellings': sorted(table.get('utf-16', []))})
-    can = []
-    pool = [c for c in cases if c['exc'] == '']
-    for k, c in enumerate(rng.sample(pool, 8)):
-        z = copy.deepcopy(c)
-        z['canary_of'] = z['id']
-        z['id'] = 'canary-%d' % k
-        if k % 2:
-            z['nl'] = [239, 187, 191] + z['nl']
-        else:
-            z['gkind'] = 'dos' if z['gkind'] == 'unix' else 'unix'
-        can.append(z)
+    def _mk_canaries():
+        can = []
+        pool = [c for c in cases if c['exc'] == '']
+        for k, c in enumerate(rng.sample(pool, 8)):
+            z = copy.deepcopy(c)
+            z['canary_of'] = z['id']
+            z['id'] = 'canary-%d' % k
+            if k % 2:
+                z['nl'] = [239, 187, 191] + z['nl']
+            else:
+                z['gkind'] = 'dos' if z['gkind'] == 'unix' else 'unix'
+            can.append(z)
+        return can
+    can = run.tolerant(_mk_canaries)
     run.judge('Trace_Codec', cases + can, cat.tables(), canary_ids=[c['id'] for c in can],
               describe=lambda c: {'codec': c['codec'], 'kind': c['kind'], 'nl': c['nl']})
-    wcan = writer_canaries(traces, rng, want=('read',), count=6)
+    wcan = run.tolerant(lambda: writer_canaries(traces, rng, want=('read',), count=6))
     run.judge('Trace_WriteRead', traces + wcan, cat.tables(), canary_ids=[c['id'] for c in wcan],
               describe=lambda tr: bytes(tr['ev'][0]['enc']['name']).decode())
     run.assumptions += ['Python\'s alias table and per-character encodings of the canonical codec are trusted',
